@@ -17,7 +17,11 @@ def obligations(tier):
         obs.append(Ob(f"C09.constructor.{['TXT','SEC','LYR'][kind-3]}", "CH", "harness.h_events", "constructor_dataflow", 120, {"VF_KIND": kind}, funcs=(GL + "GlobalEvent.from_parsed_data",)))
     for kind, name in ((6, "LYR"), (7, "SEC"), (8, "TXT")):
         obs.append(Ob(f"C09.decode.{name}", "CH", "harness.h_lines", "decode_line", 600, {"VF_KIND": kind, "VF_SYM": 0, "VF_MAXD": 3}, funcs=(GL + "GlobalEvent.ParsedData.from_chart_line",)))
-    for nge in ([2, 3] if tier == "quick" else [2, 3]):
+    if tier == "thorough":
+        for k0 in range(12):
+            obs.append(Ob(f"C09.real_lines.N3.first{k0}", "CH", "harness.h_extra", "global_real_lines", 1500, {"VF_NGE": 3, "VF_K0": k0},
+                          funcs=(GL + "GlobalEventsTrack.from_chart_lines",), bounds="every sequence of 3 lines, first fixed per partition"))
+    for nge in [2]:
         obs.append(Ob(f"C09.real_lines.N{nge}", "CH", "harness.h_extra", "global_real_lines", 1500, {"VF_NGE": nge},
                       funcs=(GL + "GlobalEventsTrack.from_chart_lines", TR + "parse_data_from_chart_lines"),
                       bounds=f"real recognisers on every sequence of {nge} lines from 12 shapes (exact duplicates, 'lyric'/'section' without blank, inner quotes, non-ASCII, unclassifiable lines)"))
